@@ -388,6 +388,37 @@ theorem writeCsv_injective (a b : List (List Str)) (h : writeCsv a = writeCsv b)
   rw [h1] at h2
   exact Except.ok.inj h2
 
+/-- **the guard is exact**: the records come back iff every field fits the limit … -/
+theorem csv_read_write_iff (limit : Nat) (recs : List (List Str)) :
+    parseCsvWith limit (writeCsv recs) = .ok recs ↔ FieldsFit limit recs :=
+  ⟨fun h => parse_output_fits limit _ recs h, csv_read_write_with limit recs⟩
+
+/-- … and otherwise the reader RAISES (`_csv.Error: field larger than field limit`): it never
+delivers different records for a text the project's writer produced. -/
+theorem csv_unfit_raises (limit : Nat) (recs : List (List Str)) (h : ¬ FieldsFit limit recs) :
+    parseCsvWith limit (writeCsv recs) = .error .fieldLimit := by
+  cases hp : parseCsvWith limit (writeCsv recs) with
+  | error e => rw [parse_error_is_fieldLimit limit _ e hp]
+  | ok r =>
+    exfalso
+    obtain ⟨L0, hL0⟩ := exists_fieldsFit recs
+    have h1 := parse_mono limit (max limit L0) (Nat.le_max_left _ _) _ r hp
+    rw [csv_read_write_with (max limit L0) recs (fieldsFit_mono (Nat.le_max_right _ _) hL0)] at h1
+    cases h1
+    exact h (parse_output_fits limit _ recs hp)
+
+example : ¬ FieldsFit 3 [["abcd".toList]] := by decide
+
+/-- **the reader on ANY text** (not only written ones): it either delivers records whose fields fit
+the limit or raises the field-limit error — the "new-line character seen in unquoted field" error
+of `csv.reader` cannot occur behind `newline=""` line iteration. -/
+theorem csv_reader_total (limit : Nat) (text : Str) :
+    (∃ recs, parseCsvWith limit text = .ok recs ∧ FieldsFit limit recs) ∨
+      parseCsvWith limit text = .error .fieldLimit := by
+  cases hp : parseCsvWith limit text with
+  | error e => exact Or.inr (by rw [parse_error_is_fieldLimit limit _ e hp])
+  | ok r => exact Or.inl ⟨r, rfl, parse_output_fits limit _ r hp⟩
+
 /-- **the reader on the grammar of CSV texts** (not only on what the project's writer produces):
 records terminated by CRLF or by LF, comma-separated fields, each field EITHER between quotes with
 its quotes doubled OR written as is when it has no comma, quote, CR or LF (and a record that is one
@@ -499,6 +530,50 @@ example :
     let rs : List (List (Bool × Str)) := [[(true, "a".toList), (false, "b".toList)], [(false, "1".toList), (true, [])]]
     Rect s ∧ s.headers ≠ [] ∧ rs.map (fun r => r.map Prod.snd) = toCsvRecords s ∧ (∀ r ∈ rs, ValidRow r) ∧ CellsFit s := by
   decide
+
+/-- every way `load_csv` can fail on a file: not UTF-8, a field over the limit, or a record longer
+than the first one (`tablib.InvalidDimensions`) — nothing else, for EVERY byte string. -/
+theorem loadCsv_errors (name : Str) (bytes : ByteArray) (e : LoadErr)
+    (h : loadCsv name bytes = .error e) :
+    e = .csv .decode ∨ e = .csv .fieldLimit ∨ e = .sheet .invalidDimensions := by
+  unfold loadCsv at h
+  split at h
+  · cases h; exact Or.inl rfl
+  · rename_i text _
+    unfold loadCsvText at h
+    split at h
+    · rename_i e' he'
+      cases h
+      exact Or.inr (Or.inl (by rw [parse_error_is_fieldLimit fieldLimit text e' he']))
+    · rename_i records _
+      split at h
+      · cases h
+      · rename_i e' he'
+        cases h
+        refine Or.inr (Or.inr ?_)
+        have key : ∀ (hs : List Str) (rs acc : List (List Str)) (e : SErr),
+            csvRows hs rs acc = .error e → e = .invalidDimensions := by
+          intro hs rs
+          induction rs with
+          | nil => intro acc e h; simp [csvRows] at h
+          | cons r rs ih =>
+            intro acc e h
+            unfold csvRows at h
+            split at h
+            · exact ih _ _ h
+            · simp only at h
+              generalize (if r.length < width hs acc then padTo (width hs acc) r else r) = r' at h
+              split at h
+              · exact ih _ _ h
+              · cases h; rfl
+        unfold readCsv at he'
+        split at he'
+        · cases he'
+        · split at he'
+          · cases he'
+          · rename_i e'' he''
+            cases he'
+            rw [key _ _ _ _ he'']
 
 /-- outside the guard, where the real pipeline loses information: (1) a sheet WITHOUT headers is
 exported without a header record, so its first row comes back as the headers; (2) a short row is
